@@ -82,9 +82,10 @@ func AllCfgs(encs []string) []WCfg {
 
 // Input is a named input document on disk.
 type Input struct {
-	Name string
-	Path string
-	Gen  bool // generated with rawpdf
+	Name       string
+	Path       string
+	Gen        bool // generated with rawpdf
+	NoOptimize bool // run operations with conf.Optimize = false (references to free objects then reach the writer)
 }
 
 // corpus returns the testdata PDFs no larger than maxSize, smallest first.
@@ -166,6 +167,23 @@ func rawInputs(dir string) []Input {
 		ln := d.Add("17")                                                                             // indirect length
 		d.Add(fmt.Sprintf("<< /Length %d 0 R >>\nstream\n%s\nendstream", ln, "\n% seventeen b.\r\r")) // unreferenced stream
 		add("free", d.Bytes())
+	}
+	// a page referencing a free object that is not the head of the free list; processed without the optimisation pass
+	{
+		d := rawpdf.MarkerDoc([]rawpdf.PageSpec{{Marker: "R-1", Rotate: -1}, {Marker: "R-2", Rotate: -1}}, rawpdf.MarkerOpts{InfoDict: "/Title (freeref)"})
+		f1 := d.Add("")
+		d.Add("")
+		f3 := d.Add("")
+		_ = f1
+		for i, b := range d.Objs {
+			if strings.HasPrefix(b, "<< /Type /Page /Parent") {
+				d.Objs[i] = strings.TrimSuffix(b, ">>") + fmt.Sprintf("/Thumb %d 0 R >>", f3)
+				break
+			}
+		}
+		p := filepath.Join(dir, "freeref.pdf")
+		writeFile(p, d.Bytes())
+		r = append(r, Input{Name: "raw:freeref", Path: p, Gen: true, NoOptimize: true})
 	}
 	// page content that begins with LF and is not compressed; a second page whose content ends with CR
 	{
